@@ -222,6 +222,15 @@ package layer4
 //@ pred validroutes(routes RouteList) = forall r int :: 0 <= r && r < len(routes) ==> routes[r] != nil && validsets(routes[r].matcherSets) && validmw(routes[r].middleware)
 //@ pred validmw(mw []Middleware) = forall t int :: 0 <= t && t < len(mw) ==> !isnil(mw[t])
 
+// Compile only builds the closure (it runs nothing); what the closure needs from its free variables
+// is required here, at the place where they are bound.
+//@ func (routes RouteList) Compile(logger *zap.Logger, matchingTimeout time.Duration, next Handler) Handler
+//@ requires logger != nil && !isnil(next)
+//@ requires[inv] validroutes(routes)
+//@ safety C02
+//@ assigns nothing
+//@ ensures !isnil(result)
+
 // lastHandler: what the last handler of a route passes on becomes the connection the following
 // routes are matched on, and the route is thereby known not to be terminal. Its precondition is the
 // handler interface's (the handlers of the chain must establish it: C01).
